@@ -91,6 +91,8 @@ klass("Kconfig", 4, "esp_kconfiglib.core", fields={
     "_warn_assign_no_prompt": field("bool", "imm"),
     "n": field("ref:Symbol", "imm"),
     "y": field("ref:Symbol", "imm"),
+    "missing_syms": field("list", "mut"),
+    "unique_defined_syms": field("list[ref:Symbol]", "imm"),
 }, props=[], methods=[])
 
 assumption("WF:field-types",
